@@ -5,6 +5,26 @@
 // so that there is no effect with NDEBUG
 #if defined(WITH_SYMENGINE_ASSERT)
 
+#if defined(SYMENGINE_VERIF)
+// Monitoring build: a failed assertion is logged and reported to the harness
+// as an exception instead of aborting the process.
+#include <symengine/symengine_verif.h>
+#define SYMENGINE_ASSERT(cond)                                                 \
+    {                                                                          \
+        if (!(cond)) {                                                         \
+            ::SymEngine::verif::assert_failed(__FILE__, __LINE__, __func__,    \
+                                              #cond);                          \
+        }                                                                      \
+    }
+#define SYMENGINE_ASSERT_MSG(cond, msg)                                        \
+    {                                                                          \
+        if (!(cond)) {                                                         \
+            ::SymEngine::verif::assert_failed(__FILE__, __LINE__, __func__,    \
+                                              #cond);                          \
+        }                                                                      \
+    }
+#endif // defined(SYMENGINE_VERIF)
+
 #if !defined(SYMENGINE_ASSERT)
 #define stringize(s) #s
 #define XSTR(s) stringize(s)
